@@ -415,6 +415,12 @@ func propC17(a *Analysis, r *Registry) {
 				tkv = mi.X // the concrete ticker
 			}
 			e.Set("ticker", fc.Val(tkv), tkv.Type())
+			// … and that ticker is this scale's own, rounding INWARD (ticks stay inside the domain)
+			if ta := fc.Val(tkv).SingleAtom(); ta == nil || !strings.HasPrefix(ta.Name, "mk:") || !strings.HasSuffix(ta.Name, "Ticker") || len(ta.Args) != 2 || !ta.Args[1].Equal(S.False()) {
+				r.Fail(rB, name+"/ticker", a.W.InstrPos(call), "Ticks does not search the levels with this scale's round-in ticker {&s, false}: "+clip(fc.Val(tkv).String(), 120))
+			} else {
+				r.OK(rB, name+"/ticker", a.W.InstrPos(call), "Ticks searches levels with "+strings.TrimPrefix(ta.Name, "mk:")+"{&s, roundOut: false}")
+			}
 			b.EqUnder(rB, name+"/major-level", b.pos(fn), fc2, fc2.RetVal(0), e, "ticker.TicksAtLevel(level)")
 			b.EqUnder(rB, name+"/minor-level", b.pos(fn), fc2, fc2.RetVal(1), e, "ticker.TicksAtLevel(level-1)")
 			// failure → nil,nil
@@ -464,6 +470,13 @@ func propC17(a *Analysis, r *Registry) {
 			// into the MinLevel == MaxLevel == 0 "no limits" sentinel, or drop one)
 			b.EqRF(rB, name+"/options-as-given", a.W.InstrPos(call), fc.Val(call.Call.Args[0]), S.MakeFn("ref", env.Vars["o"].RF), "FindLevel is called on the TickOptions passed in, unchanged")
 			lvl, okv := tupleOf(fc, call, 0), tupleOf(fc, call, 1)
+			// the level is searched with the ROUND-OUT ticker of this scale (counting the ticks of the
+			// domain as it stands would pick a level whose rounded-out domain has more than Max ticks)
+			if tk := fc.Val(call.Call.Args[1]).SingleAtom(); tk == nil || tk.Name != "mk:logTicker" || len(tk.Args) != 2 || !tk.Args[1].Equal(S.True()) || !tk.Args[0].Equal(X.ParamRF(fn, 0)) {
+				r.Fail(rB, name+"/ticker", a.W.InstrPos(call), "Nice does not search the levels with logTicker{s, roundOut: true}: "+clip(fc.Val(call.Call.Args[1]).String(), 120))
+			} else {
+				r.OK(rB, name+"/ticker", a.W.InstrPos(call), "Nice searches levels with logTicker{s, roundOut: true}")
+			}
 			fcOK := X.Under(fn, append(base, X.AssumeEq(okv, S.True()))...)
 			e := X.EnvFor(fn, "s", "o")
 			e.Set("level", lvl, nil)
